@@ -53,6 +53,7 @@ class Outcome:
     violations: list = field(default_factory=list)  # list of JSON-able dicts
     samples: list = field(default_factory=list)
     caps: list = field(default_factory=list)  # reasons the declared space was cut
+    errors: list = field(default_factory=list)  # harness errors (never a verdict)
     extra: dict = field(default_factory=dict)  # numeric counters, summed on merge
 
     def ev(self, cls: str = "ok", key: Hashable | None = None, n: int = 1):
@@ -79,6 +80,8 @@ class Outcome:
         if len(self.samples) < 6:
             self.samples.extend(other.samples[: 6 - len(self.samples)])
         self.caps.extend(other.caps)
+        if len(self.errors) < 5:
+            self.errors.extend(other.errors[: 5 - len(self.errors)])
         for k, v in other.extra.items():
             self.extra[k] = self.extra.get(k, 0) + v
 
@@ -241,7 +244,7 @@ def _worker(args):
         except Exception as e:  # harness error: never a property verdict
             o = Outcome()
             o.extra["harness_errors"] = 1
-            o.samples.append({"harness_error": repr(e), "trace": traceback.format_exc()[-1500:], "case": jsonable(case)})
+            o.errors.append({"harness_error": repr(e), "trace": traceback.format_exc()[-1500:], "case": jsonable(case)})
         for v in o.violations:
             v.setdefault("case", jsonable(case))
         o.extra["_t"] = time.time() - t0
@@ -311,14 +314,20 @@ def _run(mod, modname, tier, seed, scratch_root, jobs, t_start) -> int:
     total = Outcome()
     done = [0] * n
     skipped = 0
+    import concurrent.futures as cf
+
+    broken_pool = None
     if jobs == 1:
         _worker_init(scratch_root)
         results_iter = (_worker(t) for t in tasks)
         pool = None
     else:
         ctx = mp.get_context("spawn")
-        pool = ctx.Pool(jobs, initializer=_worker_init, initargs=(scratch_root,))
-        results_iter = pool.imap_unordered(_worker, tasks)
+        # ProcessPoolExecutor (unlike multiprocessing.Pool) notices a worker that dies in
+        # native code (segfault, abort) and raises BrokenProcessPool instead of hanging.
+        pool = cf.ProcessPoolExecutor(jobs, mp_context=ctx, initializer=_worker_init, initargs=(scratch_root,))
+        futs = [pool.submit(_worker, t) for t in tasks]
+        results_iter = (f.result() for f in cf.as_completed(futs))
     slowest = 0.0
     try:
         for res in results_iter:
@@ -329,14 +338,19 @@ def _run(mod, modname, tier, seed, scratch_root, jobs, t_start) -> int:
             if time.time() - t_start > deadline:
                 skipped = n - sum(done)
                 total.caps.append(f"deadline {deadline}s hit: {skipped} of {n} cases not evaluated")
-                if pool is not None:
-                    pool.terminate()
                 break
+    except cf.process.BrokenProcessPool as e:
+        skipped = n - sum(done)
+        broken_pool = f"a worker process died ({e!r}); {skipped} of {n} cases not evaluated"
+        total.caps.append(broken_pool)
     finally:
         if pool is not None:
-            pool.close() if not skipped else None
-            pool.terminate()
-            pool.join()
+            pool.shutdown(wait=False, cancel_futures=True)
+            for pr in list((getattr(pool, "_processes", None) or {}).values()):
+                try:
+                    pr.terminate()
+                except Exception:
+                    pass
     if not skipped and any(d != 1 for d in done):
         print(f"BROKEN property={pid}: case accounting failed (some index not evaluated exactly once)")
         return 2
@@ -403,7 +417,7 @@ def _run(mod, modname, tier, seed, scratch_root, jobs, t_start) -> int:
         "known_findings_hit": sorted(known_hits),
         "harness_errors": int(harness_errors),
     }
-    if level == "model_checking":
+    if level == "model_checking" and total.states >= 1 and total.transitions >= 1:
         cov["states"] = int(total.states)
         cov["transitions"] = int(total.transitions)
         # every transition is executed on the implementation (no separate model artefact)
@@ -427,7 +441,11 @@ def _run(mod, modname, tier, seed, scratch_root, jobs, t_start) -> int:
     with open(evpath, "w") as f:
         json.dump(ev, f, indent=1, sort_keys=True)
         f.write("\n")
-    _validate_evidence(ev)
+    evidence_problem = None
+    try:
+        _validate_evidence(ev)
+    except Exception as e:  # keep going: a violation must still be reported
+        evidence_problem = str(e)[-600:]
 
     print(
         f"[{pid}] tier={tier} seed={seed} cases={n} evals={total.evals} nontrivial={len(total.nontrivial)} "
@@ -437,8 +455,14 @@ def _run(mod, modname, tier, seed, scratch_root, jobs, t_start) -> int:
     for key, vs in sorted(known_hits.items()):
         print(f"KNOWN-FINDING: property={pid} {key}: {known[key].get('what', '')} ({len(vs)} case(s))")
     rc = 0
+    if evidence_problem:
+        print(f"BROKEN property={pid}: {evidence_problem}")
+        rc = 2
+    if broken_pool:
+        print(f"BROKEN property={pid}: {broken_pool}")
+        rc = 2
     if harness_errors:
-        print(f"BROKEN property={pid}: {harness_errors} harness error(s); first: {total.samples[:1]}")
+        print(f"BROKEN property={pid}: {harness_errors} harness error(s); first: {json.dumps(total.errors[:1])[:2500]}")
         rc = 2
     if vacuous and not real:
         print(f"BROKEN property={pid}: vacuous exploration: {vacuous}")
